@@ -37,7 +37,9 @@ class MultiVector:
         :param items: keyword arguments can be used to initiate multivectors as well, e.g.
             :code:`MultiVector(alg, e12=1)`. Mutually exclusive with `values` and `keys`.
         """
-        if items and keys is None and values is None:
+        if items and not (keys is None and values is None):
+            raise TypeError("Keyword basis blades are mutually exclusive with `values` and `keys`.")
+        if items:
             for key in list(items.keys()):
                 if key not in algebra.canon2bin:
                     target, swaps = algebra._blade2canon(key)
